@@ -629,7 +629,11 @@ func TestVerifReplay(t *testing.T) {
 		args = append(args, "./"+rf.Pkg)
 		cmd := exec.Command("go", args...)
 		cmd.Dir = repoDir
-		cmd.Env = append(os.Environ(), "GOFLAGS=-mod=mod", "GOPROXY=off", "GOSUMDB=off", "GOTOOLCHAIN=local", "VERIF_REPLAY="+path)
+		// a private temp directory: the spill-file assertions of the buffer harness look at
+		// os.TempDir() and must not see files of other replays running at the same time
+		privTmp := filepath.Join(tmp, "tmpdir")
+		os.MkdirAll(privTmp, 0o755)
+		cmd.Env = append(os.Environ(), "GOFLAGS=-mod=mod", "GOPROXY=off", "GOSUMDB=off", "GOTOOLCHAIN=local", "VERIF_REPLAY="+path, "TMPDIR="+privTmp)
 		out, _ = cmd.CombinedOutput()
 		if strings.Contains(string(out), "[build failed]") {
 			// harness files that no longer compile against this tree are dropped (their jobs are
